@@ -126,10 +126,10 @@ func (c10) Gen(r *sim.Rand, tier string, run uint64) *sim.Scenario {
 			l = 0
 		}
 		if s.w {
-			client := r.Intn(3) % 2 // raw twice as likely as bufio
+			client := sim.PickInt(r, 0, 0, 0, 1, 1, 2) // raw, bufio, io.Copy straight into the library's writer
 			ops = append(ops, sim.Op{K: "write", N: []int64{int64(id), int64(client)}, B: r.Bytes(l)})
 		} else {
-			ops = append(ops, sim.Op{K: "read", N: []int64{int64(id), int64(l), int64(r.Intn(5))}})
+			ops = append(ops, sim.Op{K: "read", N: []int64{int64(id), int64(l), int64(r.Intn(6))}})
 		}
 		if !s.low && l <= s.remain {
 			s.remain -= l
@@ -337,6 +337,26 @@ func (c checkedWriter) Write(p []byte) (int, error) {
 	return n, err
 }
 
+// plainReader is a source without io.WriterTo, so that io.Copy has to ask the destination.
+type plainReader struct {
+	data []byte
+	off  int
+}
+
+func (p *plainReader) Read(b []byte) (int, error) {
+	if p.off >= len(p.data) {
+		return 0, io.EOF
+	}
+	n := copy(b, p.data[p.off:])
+	p.off += n
+	return n, nil
+}
+
+// bytesSink is a destination without io.ReaderFrom.
+type bytesSink struct{ b []byte }
+
+func (s *bytesSink) Write(p []byte) (int, error) { s.b = append(s.b, p...); return len(p), nil }
+
 func clampInt(v, lo, hi int) int {
 	if v < lo {
 		return lo
@@ -518,6 +538,35 @@ func (c c10) Exec(sc *sim.Scenario, env *sim.Env) (viol *sim.Violation) {
 				buf := make([]byte, l)
 				_, _ = io.ReadFull(s.br, buf)
 				st.Probe("client_bufio_reader")
+			case 5: // io.Copy straight from the library's reader (uses its io.WriterTo if it has one)
+				var dst bytesSink
+				var n int64
+				var err error
+				p, pv := sim.RecoverLib(func() { n, err = io.Copy(&dst, s.r) })
+				st.SimOps++
+				env.ObsInt(int(n))
+				env.ObsBytes(dst.b)
+				st.Probe("client_iocopy_reader")
+				if p {
+					w.fail("read_panic", "io.Copy from the reader panicked: %s", sim.PanicString(pv))
+				} else if s.low {
+					if n != 0 || err != io.ErrUnexpectedEOF {
+						w.fail("low_half_read", "io.Copy from a stream below $8000 returned (%d, %v), want (0, unexpected EOF)", n, err)
+					}
+				} else {
+					if err != nil || int(n) != remaining || len(dst.b) != remaining {
+						w.fail("reader_total", "io.Copy from a reader with %d bytes left delivered %d bytes, err %v", remaining, n, err)
+					} else {
+						for i2, bb := range dst.b {
+							if bb != w.model[s.pos+i2] && bb != s.snapshot[s.pos+i2-s.start] {
+								w.fail("read_data", "io.Copy delivered %02x for file offset %#x, image holds %02x", bb, s.pos+i2, w.model[s.pos+i2])
+								break
+							}
+						}
+						s.pos = s.end
+						s.eofSeen = true
+					}
+				}
 			default:
 				buf := make([]byte, l)
 				_, _ = cr.Read(buf)
@@ -530,7 +579,38 @@ func (c c10) Exec(sc *sim.Scenario, env *sim.Env) (viol *sim.Violation) {
 				continue
 			}
 			cw := checkedWriter{w, s}
-			if op.Arg(1) == 1 {
+			if op.Arg(1) == 2 {
+				// io.Copy hands the transfer to the writer itself if it offers io.ReaderFrom: the
+				// library's object is used directly and the outcome is checked afterwards
+				src := plainReader{data: []byte(op.B)}
+				room := s.end - s.pos
+				if s.low {
+					room = 0
+				}
+				var n int64
+				var err error
+				p, pv := sim.RecoverLib(func() { n, err = io.Copy(s.w, &src) })
+				st.SimOps++
+				env.ObsInt(int(n))
+				env.ObsBool(err != nil)
+				st.Probe("client_iocopy_writer")
+				if p {
+					w.fail("write_panic", "io.Copy of %d bytes into the writer panicked: %s", len(op.B), sim.PanicString(pv))
+				} else if n < 0 || int(n) > len(op.B) || (!s.low && int(n) > room) {
+					w.fail("write_beyond_window", "io.Copy of %d bytes with %d bytes of room reported %d bytes written", len(op.B), room, n)
+				} else if err == nil && int(n) != len(op.B) {
+					w.fail("silent_partial_write", "io.Copy of %d bytes into a writer with %d bytes of room returned (%d, nil): a silent partial write", len(op.B), room, n)
+				} else if err != nil && !s.low && len(op.B) <= room {
+					w.fail("write_spurious_error", "io.Copy of %d bytes fits (room %d) but returned (%d, %v)", len(op.B), room, n, err)
+				} else if s.low && (n != 0 || (len(op.B) > 0 && err == nil)) {
+					w.fail("low_half_write", "io.Copy into a stream below $8000 returned (%d, %v)", n, err)
+				}
+				if w.viol == nil && !s.low {
+					copy(w.model[s.pos:s.pos+int(n)], op.B[:n])
+					s.pos += int(n)
+				}
+				w.compareImage(fmt.Sprintf("io.Copy(%d bytes) -> (%d, %v)", len(op.B), n, err))
+			} else if op.Arg(1) == 1 {
 				if s.bw == nil {
 					s.bw = bufio.NewWriterSize(cw, 32)
 				}
